@@ -7,6 +7,7 @@ use cglue::iter::CIterator;
 use cglue::option::COption;
 use cglue::result::CResult;
 use cglue::slice::{CSliceMut, CSliceRef};
+use cglue::trait_group::Opaquable;
 use cglue::vec::CVec;
 use std::ffi::c_void;
 use vkit::payload::{self, Heavy};
@@ -319,6 +320,71 @@ fn misc() -> (usize, Vec<Value>) {
             cview::cv_arr_iter(it.as_mut_ptr() as *mut c_void, &mut st);
             let got: Vec<u64> = it.assume_init().take(50).collect();
             check!("iterator made by C", got == items && st.calls_after_end == 1, "end status {:#x}: Rust saw {:?} and asked {} times after the end", status, got, st.calls_after_end);
+        }
+        // a box made by C (caller-provided storage, C's own release function): Rust reads and writes through it, converts it
+        // to opaque form, and on drop hands exactly that pointer to exactly that function, once; a box without a release
+        // function is a loan: dropping it releases nothing
+        for (owned, opaque) in [(1, false), (1, true), (0, false), (0, true)] {
+            let mut storage = 0u64;
+            let before = cview::cv_box_freed();
+            let mut raw = std::mem::MaybeUninit::<CBox<'static, u64>>::uninit();
+            cview::cv_box_make(raw.as_mut_ptr() as *mut c_void, &mut storage, 4242, owned);
+            let mut b = raw.assume_init();
+            let seen = *b;
+            *b += 1;
+            let wrote = std::ptr::read_volatile(&storage);
+            if opaque { drop(b.into_opaque()) } else { drop(b) }
+            let freed = cview::cv_box_freed() - before;
+            check!("box made by C", seen == 4242 && wrote == 4243 && freed == owned as usize && (owned == 0 || cview::cv_box_freed_ptr() == &storage as *const u64 as *const c_void),
+                   "owned={} opaque={}: read {}, wrote {}, C's release function ran {} times", owned, opaque, seen, wrote, freed);
+        }
+        // a vector made by C over malloc/realloc/free, grown, edited and dropped in Rust: growing goes through the vector's
+        // reserve function, the drop through its release function with the data pointer, length and capacity it has then
+        for n in [0usize, 1, 3, 9, 40] {
+            let mut raw = std::mem::MaybeUninit::<cglue::vec::CVec<u64>>::uninit();
+            cview::cv_vec_make(raw.as_mut_ptr() as *mut c_void);
+            let mut v = raw.assume_init();
+            let mut model: Vec<u64> = vec![];
+            for i in 0..n as u64 {
+                if i % 3 == 2 { v.insert(1, 100 + i); model.insert(1, 100 + i); } else { v.push(i); model.push(i); }
+            }
+            if n >= 3 {
+                let a = v.remove(0); let b = model.remove(0);
+                let c = v.pop(); let d = model.pop();
+                check!("vector made by C: remove/pop", a == b && c == d, "n={}: remove {} vs {}, pop {:?} vs {:?}", n, a, b, c, d);
+            }
+            v.reserve(5);
+            let same = &v[..] == &model[..];
+            let (len, cap, data) = (v.len(), v.capacity(), v.as_ptr() as usize);
+            let mut mid = cview::CvVecStat::default();
+            cview::cv_vec_stat(&mut mid);
+            drop(v);
+            let mut st = cview::CvVecStat::default();
+            cview::cv_vec_stat(&mut st);
+            check!("vector made by C", same && mid.drops == 0 && mid.reserves >= 1 && cap >= len + 5 && st.drops == 1 && st.dropped_len == len && st.dropped_cap == cap && st.dropped_data == data && st.live_blocks == 0,
+                   "n={}: contents equal {}, len {} cap {}, C saw before the drop {:?}, after {:?}", n, same, len, cap, mid, st);
+        }
+        // a callback made by C, fed from Rust - the same callback object across two feeds and an Extend: one invocation per
+        // item offered, none after it asked to stop within a feed, invoked again by the next feed (Feed!Offered)
+        for stop in 0..5usize {
+            for len in 0..5u64 {
+                let mut st = cview::CvCbState { got: [0; 32], n: 0, stop, calls: 0 };
+                let mut raw = std::mem::MaybeUninit::<OpaqueCallback<u64>>::uninit();
+                cview::cv_cb_make(raw.as_mut_ptr() as *mut c_void, &mut st);
+                let mut cb = raw.assume_init();
+                let offered = |calls: usize, n: usize| if stop == 0 { n } else if n == 0 { 0 } else if calls >= stop { 1 } else { n.min(stop - calls) };
+                let mut exp_calls = 0usize;
+                let mut exp_got: Vec<u64> = vec![];
+                let c1 = (1..=len).feed_into_mut(&mut cb);
+                let k1 = offered(exp_calls, len as usize); exp_got.extend(1..=k1 as u64); exp_calls += k1;
+                let c2 = (101..=100 + len).feed_into_mut(&mut cb);
+                let k2 = offered(exp_calls, len as usize); exp_got.extend(101..=100 + k2 as u64); exp_calls += k2;
+                cb.extend(201..=200 + len);
+                let k3 = offered(exp_calls, len as usize); exp_got.extend(201..=200 + k3 as u64); exp_calls += k3;
+                let got = st.got[..st.n].to_vec();
+                check!("callback made by C", c1 == k1 && c2 == k2 && st.calls == exp_calls && got == exp_got,
+                       "stop {} len {}: counts {} {} (expected {} {}), invocations {} (expected {}), received {:?} (expected {:?})", stop, len, c1, c2, k1, k2, st.calls, exp_calls, got, exp_got);
+            }
         }
         // tags
         let some: COption<u64> = Some(77u64).into(); let none: COption<u64> = None.into();
